@@ -73,7 +73,7 @@ class System:
         state.FSM._pipeline = _pipeline
         self.lw.fire_extra = lambda: {
             'executing': any(not u['stale'] for u in sys_.sw.inflight),
-            'pending': any(bool(n.get('todo')) for n in sys_.sw.nodes().values()),
+            'pending': any(bool(n.get('todo')) for n in sys_.sw.nodes().values()) or bool(farm._cluster),
         }
 
     def close(self):
@@ -93,6 +93,8 @@ class System:
             'status': s['status'],
             'inflight': [dict(v, ancient=bool(u.get('ancient'))) for v, u in zip(s['inflight'], self.sw.inflight)],
             'archive': s['archive'],
+            'park': [m['alg'] for m in s['cluster']],
+            'free': len(farm._workers),
             'busy_view': bool(farm._busy),
             'st': l['st'],
             'tr': l['tr'],
@@ -118,7 +120,19 @@ def do_event(sy, e, o):
     if ev == 'Run':
         sw.ev_run([e['x']], [T])
     elif ev == 'Tick':
-        sw.ev_tick()
+        if e.get('sc'):
+            # scarce: only the workers that registered on their own (WorkerArrive) are there
+            sw.ev_tick(auto_workers=0)
+        else:
+            # plentiful: enough workers register just before the pass; those left without a task go away again
+            sw.ev_tick()
+            for wid, w in list(sw.workers.items()):
+                if w['connected'] and not w['holds']:
+                    sw.ev_lost(wid)
+    elif ev == 'WorkerArrive':
+        if len(farm._workers) >= 1:
+            return False
+        sw.ev_register()
     elif ev == 'Reply':
         return sw.ev_reply(e['x'], T, 'success' if e['ok'] else 'failure', ['s.v'] if (e['ok'] and e['new']) else [], False)
     elif ev == 'OldReply':
@@ -220,7 +234,7 @@ def drain(sy, steps):
                             break
             if e is None:
                 before = json.dumps(sy.snapshot(), sort_keys=True)
-                step(sy, {'ev': 'Tick'}, steps)
+                step(sy, {'ev': 'Tick', 'sc': False}, steps)
                 if json.dumps(sy.snapshot(), sort_keys=True) == before:
                     idle += 1
                     if idle >= 2:
